@@ -176,6 +176,31 @@ func init() {
 	}
 }
 
+func factInt(v *Violation, name string) int64 {
+	switch x := v.Facts[name].(type) {
+	case int:
+		return int64(x)
+	case int64:
+		return x
+	case int8:
+		return int64(x)
+	case float64:
+		return int64(x)
+	}
+	return -1
+}
+
+func finalModelFrom(base *Model, cfg Cfg, hist []Op) *Model {
+	var out *Model
+	h := append(append([]Op{}, hist...), Op{Kind: OpRead, Arg: 7})
+	modelTraceFrom(base, cfg, h, func(i int, m *Model, op Op) {
+		if i == len(hist) {
+			out = m
+		}
+	})
+	return out
+}
+
 func finalModel(cfg Cfg, hist []Op) *Model {
 	w := &World{Cfg: cfg, M: NewModel(cfg.IV, cfg.IVSet)}
 	for _, op := range hist {
@@ -274,7 +299,39 @@ func init() {
 		if !strings.HasSuffix(c.V.Oracle, "reach-garbage") || c.V.Facts == nil {
 			return false
 		}
-		return c.V.Facts["garbage_nonce"] == 1 && c.V.Facts["garbage_leaf"] == true && c.V.Facts["garbage_version_retained"] == false
+		if factInt(c.V, "garbage_nonce") != 1 || c.V.Facts["garbage_version_retained"] != false {
+			return false
+		}
+		// The leaked record (v,1) is the root node of version v. The defect needs that node to have outlived
+		// version v inside the tree of a LATER version u (as a child after the tree grew, or as the root of an
+		// imported / reference version): it is orphaned by the deletion of u, where its older version number
+		// makes deleteVersion take it for a re-keyed root. A root that is orphaned by the deletion of its own
+		// version is the ordinary case and is not covered.
+		gv, gh := factInt(c.V, "garbage_version"), factInt(c.V, "garbage_height")
+		gk, _ := c.V.Facts["garbage_key"].(string)
+		last := int64(0)
+		seen := map[int64]bool{}
+		scan := func(m *Model) {
+			for u, root := range m.Roots {
+				if seen[u] {
+					continue
+				}
+				seen[u] = true
+				for _, n := range ref.Nodes(root) {
+					if n.Version == gv && int64(n.Height) == gh && string(n.Key) == gk && u > last {
+						last = u
+					}
+				}
+			}
+		}
+		modelTraceFrom(c.Base, c.Cfg, c.Hist, func(i int, m *Model, op Op) {
+			if op.Kind == OpImport || op.Kind == OpLVFO || op.Kind == OpDelFrom {
+				seen = map[int64]bool{} // version numbers may be reused afterwards
+			}
+			scan(m)
+		})
+		scan(finalModelFrom(c.Base, c.Cfg, c.Hist))
+		return last > gv
 	}
 }
 
